@@ -3,7 +3,7 @@
    The theorems are about the functional model (greatest fixpoints of the two step conditions, written as the
    property states them); the LTS engine that libvata uses to compute them is the subject of C16. *)
 From Coq Require Import List NArith Bool.
-From V Require Import Gfp Sem Prod Lang LtsSimDefs LtsSimProofs TaSimDefs TaSimProofs.
+From V Require Import Gfp Sem Prod Lang LtsSimDefs LtsSimProofs TaSimDefs TaSimProofs TaEncDefs TaEncProofs.
 
 (* downward: the result satisfies the step condition, lies in 0..n-1, and contains every such relation *)
 Theorem C04_down_sim_greatest : forall A n,
@@ -44,6 +44,29 @@ Proof. exact gate_up_spec. Qed.
 Theorem C04_gate_equivariant : forall h base variant, gate_equivariant h base variant = true <->
   forall q' r', In (q', r') variant <-> exists q r, In (q, r) base /\ q' = h q /\ r' = h r.
 Proof. exact gate_equivariant_spec. Qed.
+(* (A) models of the two LTS encodings of src/explicit_tree_transl.hh, parameterised by the indices the code builds in
+   visiting order.  TranslateDownward: for a ranked automaton with states below n, every valid index (state index a
+   bijection of 0..n-1, symbol index injective below nsym, tuple nodes injective in n..NN-1) makes the greatest
+   simulation of the encoded LTS, read back through the state index, equal to the greatest downward simulation. *)
+Theorem C04_encode_down_correct : forall X A n NN, states_below A n -> ranked A -> down_ok X A n NN ->
+  forall q r, (q < N.of_nat n)%N -> (r < N.of_nat n)%N ->
+    (In (q, r) (down_sim A n) <-> In (d_idx X q, d_idx X r) (lts_sim_default (translate_down X A) NN)).
+Proof. exact encode_down_correct. Qed.
+(* the ranked-alphabet hypothesis cannot be dropped: the inlining of unary rules is wrong for a symbol used with arities 1 and 2 *)
+Theorem C04_encode_down_unranked_refuted :
+  exists X A n NN, states_below A n /\ down_ok X A n NN /\
+    In (d_idx X 0%N, d_idx X 1%N) (lts_sim_default (translate_down X A) NN) /\ ~ In (0%N, 1%N) (down_sim A n).
+Proof. exact encode_down_unranked_refuted. Qed.
+(* TranslateUpward (with the parent of an environment translated once, i.e. after the fix of D3): the greatest simulation
+   of the encoded LTS inside the initial relation "final -> final on states, leaf only with itself, environments with
+   equal siblings/position/symbol", read back through the state index, is the greatest upward simulation.
+   PARTIAL in one respect: the initial relation is the one *induced* by the partition and block relation that
+   TranslateUpward builds (up_node_init); that the concrete lists up_partition / up_block_rel of TaEncDefs.v induce
+   exactly this relation is proved in TaEncProofs.v only if C04_up_partition_induces is present below. *)
+Theorem C04_encode_up_correct_partial : forall X A n, states_below A n -> up_ok X A n ->
+  forall q r, (q < N.of_nat n)%N -> (r < N.of_nat n)%N ->
+    (In (q, r) (up_sim A n) <-> In (u_idx X q, u_idx X r) (up_lts_sim X n A)).
+Proof. exact encode_up_correct_partial. Qed.
 (* the hypotheses are satisfiable and the results are not trivial *)
 Example C04_example_valid : dense_ok ex_ta 4 = true /\ trimmed_ok ex_ta = true /\ ranked_ok ex_ta = true /\
   is_perm 4 (cons 2 (cons 0 (cons 3 (cons 1 nil))))%N = true.
@@ -66,6 +89,9 @@ Print Assumptions C04_dense_below.
 Print Assumptions C04_gate_down.
 Print Assumptions C04_gate_up.
 Print Assumptions C04_gate_equivariant.
+Print Assumptions C04_encode_down_correct.
+Print Assumptions C04_encode_down_unranked_refuted.
+Print Assumptions C04_encode_up_correct_partial.
 Print Assumptions C04_example_valid.
 Print Assumptions C04_example_down.
 Print Assumptions C04_example_up.
